@@ -35,7 +35,7 @@ func registerRound2() {
 	// A connection whose client has gone away while one of its handlers is still blocked must not keep the
 	// server from accepting and serving new connections: the blocked handler is released only by the new one.
 	regSpec(&Spec{
-		Name: "blocked-handler-of-gone-client-vs-new-connection", Props: []string{"C06", "C07", "C08"},
+		Name: "blocked-handler-of-gone-client-vs-new-connection", Props: []string{"C06", "C07", "C08", "C17"},
 		Conns: []ConnSpec{
 			{Ops: []string{"search"}, H: map[int]*HSpec{1: {WaitNote: "fresh-done"}}, Read: "none", Name: "faulty"},
 			{Ops: []string{"bind", "search"}, Segs: []int{1, 1}, Expect: 2, Name: "fresh", WaitNote: "faulty-done"},
